@@ -20,6 +20,7 @@ var runners = map[string]eng.Runner{
 	"C07": wire.C07,
 	"C08": wire.C08,
 	"C16": wire.C16,
+	"C18": wire.C18,
 }
 
 // Find returns the runnable spec of a property.
